@@ -229,6 +229,34 @@ def extract(ctx):
     g.strings('newPacketCalls', _calls(f, '._handle_chan_info') + _calls(f, '._handle_chan_write') + _calls(f, '._handle_chan_read'))
     f = X.find(mem, '__init__')
     g.strings('memInitCalls', _calls(f, '.add_port_callback') + _calls(f, '.add_callback'))
+    # ---- the MemoryTester client ----
+    tt = X.parse('cflib/crazyflie/mem/memory_tester.py')
+    f = X.find(tt, 'MemoryTester.new_data')
+    g.strings('testerNewDataCompares', X.compares(f))
+    g.strings('testerNewDataAssigns', [s_ for s_ in _assign_texts(f) if s_.split(' = ')[0] in ('expectedValue', 'actualValue', 'self._update_finished_cb', 'self.readValidationSucess')])
+    loops = [n for n in ast.walk(f) if isinstance(n, ast.For)]
+    X.expect(len(loops) == 1, 'MemoryTester.new_data: expected one loop')
+    par = _parents(f)
+    cbcalls = [n for n in ast.walk(f) if isinstance(n, ast.Call) and ast.unparse(n.func) == 'self._update_finished_cb']
+    X.expect(len(cbcalls) == 1, 'MemoryTester.new_data: expected one call of the finished callback')
+    g.raw('def testerCbInsideLoop : Bool := %s' % ('true' if _inside(cbcalls[0], loops[0], par) else 'false'))
+    g.string('testerLoop', ast.unparse(loops[0].target) + ' in ' + ast.unparse(loops[0].iter))
+    f = X.find(tt, 'MemoryTester.read_data')
+    g.strings('testerReadTests', [ast.unparse(n.test) for n in f.body if isinstance(n, ast.If)])
+    g.strings('testerReadCalls', _calls(f, '.read'))
+    f = X.find(tt, 'MemoryTester.write_data')
+    g.strings('testerWriteAssigns', [s_ for s_ in _assign_texts(f) if s_.split(' = ')[0] in ('value', 'self._write_finished_cb')])
+    g.strings('testerWriteCalls', _calls(f, '.write'))
+    g.strings('testerWriteLoop', [ast.unparse(n.target) + ' in ' + ast.unparse(n.iter) for n in ast.walk(f) if isinstance(n, ast.For)])
+    f = X.find(tt, 'MemoryTester.write_done')
+    g.strings('testerWriteDoneTests', [ast.unparse(n.test) for n in f.body if isinstance(n, ast.If)])
+    g.strings('testerWriteDoneCalls', _calls(f, 'self._write_finished_cb'))
+    # how Memory wires a MemoryTester to its callbacks
+    det = X.find(mem, '_handle_cmd_info_details')
+    branch = [n for n in ast.walk(det) if isinstance(n, ast.If) and ast.unparse(n.test) == 'mem_type == MemoryElement.TYPE_MEMORY_TESTER']
+    X.expect(len(branch) == 1, '_handle_cmd_info_details: MemoryTester branch not found')
+    g.strings('testerWiring', sorted(ast.unparse(n) for st_ in branch[0].body for n in ast.walk(st_)
+                                     if isinstance(n, ast.Call) and ast.unparse(n.func).endswith('.add_callback')))
     return {'C06.lean': g.render()}
 
 
@@ -372,6 +400,51 @@ class RealMem:
         raise ValueError(ws)
 
 
+class RealTester(RealMem):
+    """the real `MemoryTester` client on top of the real `Memory`; wired as `_handle_cmd_info_details` does"""
+    TAG = 900
+
+    def __init__(self, tid):
+        RealMem.__init__(self)
+        memmod, _, _ = _lib()
+        self.touts = []
+        self.tester = memmod.MemoryTester(id=tid, type=memmod.MemoryElement.TYPE_MEMORY_TESTER, size=1 << 20, mem_handler=self.mem)
+        self.tester.tag = self.TAG
+        self._wire()
+
+    def _wire(self):
+        self.mem.mem_read_cb.add_callback(self.tester.new_data)
+        self.mem.mem_write_cb.add_callback(self.tester.write_done)
+
+    def _hook(self):
+        RealMem._hook(self)
+        if hasattr(self, 'tester'):
+            self._wire()
+
+    def _tdo(self, thunk):
+        del self.touts[:]
+        r = self._do(thunk)
+        return '%s %s V%d' % (r, ';'.join(self.touts) or '-', 1 if self.tester.readValidationSucess else 0)
+
+    def line(self, ws):
+        t = self.tester
+        if ws[0] == 'tread':
+            cb = int(ws[4])
+            return self._tdo(lambda: t.read_data(int(ws[2]), int(ws[3]), lambda who: self.touts.append('TU:%d' % cb)))
+        if ws[0] == 'twrite':
+            cb = int(ws[4])
+            return self._tdo(lambda: t.write_data(int(ws[2]), int(ws[3]), lambda who, addr: self.touts.append('TW:%d:%d' % (cb, addr))))
+        if ws[0] == 'tpkt':
+            pk = self.CRTPPacket()
+            pk.set_header(4, int(ws[1]))
+            pk.data = b'' if ws[2] == '-' else bytes.fromhex(ws[2])
+            return self._tdo(lambda: self.cf.port_cb(pk))
+        if ws[0] == 'tdisc':
+            t.disconnect()
+            return 'ok'
+        return RealMem.line(self, ws)
+
+
 def probe_variant():
     """which lock discipline does the real code have? (behavioural probe; cross-checked against Gen by Tie A)
     -> (d9_fixed, d17_fixed)"""
@@ -395,13 +468,40 @@ REQUIRED_THEOREMS = ['CfVerif.C06.' + t for t in (
     'read_exact', 'read_requests_are_chunks', 'stale_reply_counterexample',
     'write_exact', 'write_exact_single', 'unwritten_memory_unchanged', 'packets_within_limits',
     'read_reply_progress', 'write_ack_progress', 'd17_never_notified', 'd17_repaired', 'oob_write_raises',
+    'gen_constants', 'gen_read_request', 'gen_write_request', 'gen_memory_api', 'gen_handlers', 'gen_disconnect', 'gen_tester',
+    'tester_write_pattern',
     'd9_lock_left_held', 'd9_wedged')]
-TRUSTED = ['harness/corr/c06.py extractor + correspondence (fake `cf` object: add_port_callback, disconnected, send_packet '
-           'with the size check of Crazyflie.send_packet; CheckedLock turns a blocking acquire of a held lock into `hang`)',
-           'environment model Spec/C06 (device memory, reply layout) written from protocol knowledge',
-           "struct '<BIB' '<BI' '<IB' as modelled in Base/Struct"]
-ASSUMPTIONS = []
-RULE = ''
+TRUSTED = ['harness/corr/c06.py extractor + correspondence (fake `cf` boundary object: add_port_callback, disconnected, send_packet with the '
+           'size check of Crazyflie.send_packet; CheckedLock turns a blocking acquire of a held lock into `hang`; one MemProxy object per '
+           'request carries the ghost tag through the callbacks)',
+           'environment model Spec/C06 (device images, request/reply layout `id addr32 [len|data]` -> `id addr32 status [data]`, 30-byte CRTP '
+           'payload => 24-byte read / 25-byte write limit, network that reorders/duplicates/drops) written from protocol knowledge; '
+           'cross-checked against harness/sim/crazyflie_device.py in the spec-twin search',
+           "struct '<BIB' '<BI' '<IB' '<BBBBB' as modelled in Base/Struct (little endian, range errors raise)",
+           'threading.Lock semantics: acquire on a held lock blocks forever in a single-threaded history; `with` releases on exceptions',
+           'Python dict insertion order = order of the failure callbacks on disconnect']
+ASSUMPTIONS = ['A1 (freshness, data-exactness theorems only): no reply belonging to an already notified request is delivered later; duplicates, '
+               'delays and reordering within a request are unrestricted. Necessary: Props stale_reply_counterexample (the protocol has no '
+               'request identity). The bookkeeping theorems (lock, exactly-one notification, order, records) hold for ARBITRARY packets.',
+               'every packet handed to cf.send_packet reaches the device once and in order (link layer: C01/C10); request retransmission by '
+               'Crazyflie.send_packet (needs_resending links) is outside this model',
+               'requests are well-formed: memory id < 256, address range inside the 32-bit address space, data are bytes (otherwise struct.pack '
+               'raises inside Memory.read/write: modelled, Props oob_write_raises, not covered by the property)',
+               'one event (API call / packet handler / disconnect handler) is atomic: with the repaired lock discipline all accesses to '
+               '_write_requests happen inside critical sections; _read_requests has no lock - two threads racing on it (e.g. the disconnect '
+               'handler running concurrently with the final read reply) are outside the model',
+               'user callbacks do not raise (Caller.call would abort the remaining subscribers); requests issued while no link is open are '
+               'outside the property; refresh()/info channel, DeckMemoryManager address mapping and progress texts are not modelled',
+               "progress percentage: int(100*a/b) modelled as floor division (exact for transfer lengths < 2^45)"]
+RULE = ('cases = whole histories driven adaptively on the REAL Memory object and replayed on the Lean model: reads (lengths 0,1,19,20,21,39,40,41,'
+        '59,60,61,100 + random) and writes (0,1,24,25,26,49,50,51,74,75,76,100 + random) on memory ids 0-2, 255, 256 at addresses inside / '
+        'partly outside the 160-byte device images and at / across the end of the 32-bit address space, queued writes with and without '
+        'flush_queue and progress callbacks, delivery of the simulated device\'s replies in random order with duplicates, stale replies from '
+        'the whole session, forged error statuses and addresses, truncated / empty / other-channel packets, disconnect at random positions; '
+        'plus MemoryTester client histories (read_data / write_data / validation) and, in the search, spec-twin scenarios (fair network with '
+        'dup/reorder/error/drop-at-k) and the real Crazyflie + SimLink stack. After EVERY step the call result (return / exception class / '
+        'hang), the packets sent, the callbacks invoked (with request tag) and the lock state are compared. distinct+non-trivial = distinct '
+        'history (op lines)')
 
 READ_LENS = [0, 1, 19, 20, 21, 39, 40, 41, 59, 60, 61, 100]
 WRITE_LENS = [0, 1, 24, 25, 26, 49, 50, 51, 74, 75, 76, 100]
@@ -523,8 +623,107 @@ def rand_history(rng, steps, variant='code'):
     return h
 
 
+def tester_history(rng, steps):
+    tid = rng.randrange(N_MEMS)
+    h = History(rng)
+    h.real = RealTester(tid)
+    h.lines.append('treset %d' % tid)
+    h.replies.append('ok')
+    # memory 0..2 hold the tester pattern at some places so that validation succeeds and fails
+    for m in h.dev.mems:
+        for k in range(0, MEM_SIZE):
+            if rng.random() < 0.85:
+                m.data[k] = k & 0xFF
+    cb = 0
+    for _ in range(steps):
+        x = rng.random()
+        cb += 1
+        if x < 0.2:
+            n = rng.choice([0, 1, 19, 20, 21, 41, 1, 20, 21, 41, 40, 60])
+            h.op('tread %d %d %d %d' % (RealTester.TAG, rng.randrange(0, MEM_SIZE - n + 1) if rng.random() < 0.9 else 250, n, cb))
+        elif x < 0.4:
+            n = rng.choice([0, 1, 24, 25, 26, 51])
+            h.op('twrite %d %d %d %d' % (RealTester.TAG, rng.randrange(0, MEM_SIZE - n + 1) if rng.random() < 0.9 else 250, n, cb))
+        elif x < 0.85 and h.inflight:
+            i = 0 if rng.random() < 0.7 else rng.randrange(len(h.inflight))
+            c, d = h.inflight[i] if rng.random() < 0.2 else h.inflight.pop(i)
+            h.op('tpkt %d %s' % (c, hexs(d)))
+        elif x < 0.9:
+            h.op('tpkt %d %s' % (rng.choice([1, 2]), hexs(ack_bytes(tid, rng.choice([0, 20, 25]), rng.choice([0, 7])))))
+        elif x < 0.93:
+            del h.inflight[:]
+            h.op('disc')
+            h.op('tdisc')
+    return h
+
+
+def systematic_histories(rng, thorough):
+    """boundary lengths x {clean, every reply duplicated, error status at chunk j, link drop after k deliveries},
+    queued second write with / without flush_queue: deterministic coverage of every chunk boundary"""
+    hs = []
+    lens_r = READ_LENS if thorough else READ_LENS[:9]
+    lens_w = WRITE_LENS if thorough else WRITE_LENS[:9]
+    for n in lens_r:
+        chunks = max(1, -(-n // 20))
+        for mode in ['clean', 'dup'] + ['err%d' % j for j in range(chunks)] + ['drop%d' % k for k in range(chunks + 1)]:
+            h = History(rng)
+            addr = 3
+            if mode.startswith('err'):
+                j = int(mode[3:])
+                # the device answers the j-th chunk request with an error status
+                h.dev.force_status(4, 1, bytes([1]) + struct.pack('<I', addr + 20 * j), 7, times=1)
+            h.read(1, addr, n)
+            k = 0
+            while h.inflight and k < 50:
+                if mode.startswith('drop') and k == int(mode[4:]):
+                    h.disc()
+                    break
+                h.deliver(0, keep=(mode == 'dup'))
+                if mode == 'dup':
+                    h.deliver(0)
+                k += 1
+            h.read(1, addr, n)          # afterwards a further request is served
+            h.drain()
+            hs.append(h)
+    for n in lens_w:
+        chunks = max(1, -(-n // 25))
+        data = bytes(rng.randrange(256) for _ in range(n))
+        for mode in ['clean', 'dup', 'queued', 'queued-flush'] + ['err%d' % j for j in range(chunks)] + \
+                ['drop%d' % k for k in range(chunks + 1)]:
+            h = History(rng)
+            addr = 7
+            if mode.startswith('err'):
+                j = int(mode[3:])
+                h.dev.force_status(4, 2, bytes([2]) + struct.pack('<I', addr + 25 * j), 13, times=1)
+            h.write(2, addr, data, prog=(n % 2 == 0))
+            if mode.startswith('queued'):
+                h.write(2, addr + 1, data[:30])
+                h.write(2, addr + 2, data[:3], flush=(mode == 'queued-flush'))
+            k = 0
+            while h.inflight and k < 80:
+                if mode.startswith('drop') and k == int(mode[4:]):
+                    h.disc()
+                    break
+                h.deliver(0, keep=(mode == 'dup'))
+                if mode == 'dup':
+                    h.deliver(0)
+                k += 1
+            h.write(2, addr, data[:26])
+            h.drain()
+            hs.append(h)
+    return hs
+
+
 def classify(reply, counts):
-    res, outs, lock = reply.split(' ')
+    f = reply.split(' ')
+    if len(f) < 3:
+        return
+    res, outs, lock = f[:3]
+    if len(f) > 3:
+        for o in f[3].split(';'):
+            if o != '-':
+                counts('tester:' + o.split(':')[0])
+        counts('tester:valid=' + f[4])
     counts('res:' + res)
     if lock == 'L1':
         counts('lock-held-after-step')
@@ -539,8 +738,12 @@ def correspond(ctx):
     ctx.note('behavioural probe of the real code: D9 repaired=%s, D17 repaired=%s' % (d9, d17))
     thorough = ctx.tier == 'thorough'
     hs = []
-    for k in range(1200 if thorough else 220):
+    hs += systematic_histories(rng, thorough)
+    ctx.count('histories:systematic', len(hs))
+    for k in range(6000 if thorough else 220):
         hs.append(rand_history(rng, rng.choice([6, 12, 25, 60])))
+    for k in range(1500 if thorough else 60):
+        hs.append(tester_history(rng, rng.choice([6, 15, 40])))
     lines = [l for h in hs for l in h.lines]
     model = ctx.lean(DRIVER, lines)
     pos = 0
@@ -581,12 +784,97 @@ def replay_d9(ctx):
     trace.append(r.write(2, 0, 0, b'\x2b', False, False))
     trace.append(r.disc())
     if held or trace[3].startswith('H') or trace[4].startswith('H'):
+        try:
+            full = d9_full_stack()
+        except Exception as e:      # the shared simulator is not part of this finding
+            full = 'not run (%s)' % type(e).__name__
         ctx.witness(D9_KEY, 'a duplicated final write acknowledgement raises IndexError inside _handle_chan_write with '
                     '_write_requests_lock held: every later write() and the disconnect handler block forever',
                     {'ops': ['write 1 0 0 2a 0 0', 'pkt 2 000000000000', 'pkt 2 000000000000', 'write 2 0 0 2b 0 0', 'disc']},
-                    observed=trace, lock_held=held)
+                    observed=trace, lock_held=held, lock_held_on_real_crazyflie_stack=full)
         return True
     return False
+
+
+def d9_full_stack():
+    """the same witness on the real Crazyflie object (real send_packet, real incoming-packet dispatch, which logs and
+    swallows the IndexError) over the simulated link: is the lock still held afterwards?"""
+    from harness.sim import crazyflie_device as sim
+    dev = sim.CrazyflieDevice(mems=[sim.Mem(0x18, data=bytes(64))])
+    s = sim.SyncSession(dev)
+    if not s.connect('connected'):
+        return None
+    mem = s.cf.mem
+    s.call(mem.write, MemProxy(0, 1), 0, bytearray(b'\x2a'))
+    s.run()
+    acks = [i for i, p in enumerate(s.link.history) if p[0] == 4 and p[1] == 2]
+    if not acks:
+        return None
+    s.link.replay(acks[-1])
+    s.run()
+    return mem._write_requests_lock.locked()
+
+
+def full_stack_scenarios(ctx, rng, n):
+    """real Crazyflie + real Memory + simulated device over a link that duplicates and delays replies; every request uses
+    its own address range, so that a late duplicate can never be mistaken for the reply to a later request (A1)"""
+    from harness.sim import crazyflie_device as sim
+    for k in range(n):
+        # memory type 0x18 (TYPE_APP): Memory creates a plain MemoryElement for it, which subscribes to no callback,
+        # so no element-specific parser sits between Memory and the observers of this check
+        dev = sim.CrazyflieDevice(mems=[sim.Mem(0x18, data=bytes(rng.randrange(256) for _ in range(400))),
+                                        sim.Mem(0x18, data=bytes(400))])
+        pol = sim.RandomPolicy(rng, p_dup=rng.choice([0, 0.3, 0.6]), p_delay=rng.choice([0, 0.3]), p_stale=0.0)
+        s = sim.SyncSession(dev)
+        if not s.connect('connected') or s.run(max_steps=5000) != 'quiescent':
+            ctx.note('full-stack scenario: could not connect to the simulated device')
+            return
+        # the connection sequence (TOC download, memory refresh on the info channel) is not the subject of C06:
+        # the adversarial link policy is switched on once the session is up
+        s.cfg.policy = pol
+        mem = s.cf.mem
+        got = {}
+        mem.mem_read_cb.add_callback(lambda m, a, d: got.setdefault(m.tag, []).append(('RO', a, bytes(d))))
+        mem.mem_read_failed_cb.add_callback(lambda m, a, d: got.setdefault(m.tag, []).append(('RF', a, bytes(d))))
+        mem.mem_write_cb.add_callback(lambda m, a: got.setdefault(m.tag, []).append(('WO', a)))
+        mem.mem_write_failed_cb.add_callback(lambda m, a: got.setdefault(m.tag, []).append(('WF', a)))
+        snapshot = bytes(dev.mems[0].data)
+        expect = bytearray(dev.mems[1].data)
+        reqs, ra, wa, tag = [], 0, 0, 0
+        for _ in range(rng.choice([2, 4, 6])):
+            tag += 1
+            if rng.random() < 0.5:
+                n_ = rng.choice(READ_LENS[:9])
+                reqs.append((tag, 'r', ra, n_))
+                s.call(mem.read, MemProxy(0, tag), ra, n_)
+                s.run(max_steps=20000)        # one read per memory at a time
+                ra += n_ + 1
+            else:
+                n_ = rng.choice(WRITE_LENS[:9])
+                data = bytes(rng.randrange(256) for _ in range(n_))
+                reqs.append((tag, 'w', wa, data))
+                s.call(mem.write, MemProxy(1, tag), wa, bytearray(data))
+                expect[wa:wa + n_] = data
+                wa += n_ + 1
+                if rng.random() < 0.5:
+                    s.run(max_steps=20000)
+        s.run(max_steps=20000)
+        held = mem._write_requests_lock.locked()
+        bad = held
+        for (t, kind, a, x) in reqs:
+            ns = got.get(t, [])
+            if len(ns) != 1 or (kind == 'r' and ns[0] != ('RO', a, snapshot[a:a + x])) or (kind == 'w' and ns[0] != ('WO', a)):
+                bad = True
+        if bytes(dev.mems[1].data) != bytes(expect) or bytes(dev.mems[0].data) != snapshot:
+            bad = True
+        ctx.count('search:full-stack-scenarios')
+        if bad:
+            ctx.witness('full-stack', 'reads/writes through the real Crazyflie object over a duplicating/delaying link are not exact / '
+                        'not notified exactly once / leave the lock held',
+                        {'requests': [(t, kind, a, x if isinstance(x, int) else x.hex()) for (t, kind, a, x) in reqs]},
+                        notifications={t: [tuple(y if not isinstance(y, bytes) else y.hex() for y in n) for n in v] for t, v in got.items()},
+                        lock_held=held)
+            return
 
 
 def replay_d17(ctx):
@@ -795,13 +1083,102 @@ def run_scenario(ctx, rng, n_ops, p_dup, p_reorder, p_err, drop_at, desc):
     return sc
 
 
+def evaluate_simple(sc, expect_ok):
+    """every accepted, not superseded request of the scenario got exactly one notification, of the expected kind"""
+    for tag, rq in sc.req.items():
+        ns = sc.notes.get(tag, [])
+        if rq.get('superseded'):
+            continue
+        if len(ns) != 1:
+            sc.fail('exactly-one', 'an accepted request that was not superseded got %d notifications' % len(ns), tag=tag, notes=ns)
+        elif tag in expect_ok and ns[0][:2] != expect_ok[tag]:
+            sc.fail('outcome', 'request notified with the wrong outcome', tag=tag, notes=ns, want=expect_ok[tag])
+
+
+def systematic_search(ctx):
+    """deterministic boundary scenarios: every chunk count, an error status at every chunk, a queue behind the failing
+    write, every reply duplicated, link drop after every k-th reply; judged by the spec twin"""
+    rng = ctx.rng
+    for n in WRITE_LENS[:9]:
+        chunks = max(1, -(-n // 25))
+        for j in list(range(chunks)) + [None]:
+            for dup in (False, True):
+                sc = Scenario(ctx, rng, {'kind': 'queued-writes', 'len': n, 'error_at_chunk': j, 'dup': dup})
+                h, dev = sc.h, sc.h.dev
+                base = bytes(dev.mems[2].data)
+                a = 7
+                d1 = bytes(rng.randrange(256) for _ in range(n))
+                d2 = bytes(rng.randrange(256) for _ in range(30))
+                d3 = bytes(rng.randrange(256) for _ in range(3))
+                if j is not None:
+                    dev.force_status(4, 2, bytes([2]) + struct.pack('<I', a + 25 * j), 13, times=1)
+                t1 = sc.write(2, a, d1)
+                t2 = sc.write(2, a + 60, d2)
+                t3 = sc.write(2, a + 100, d3)
+                g = 0
+                while h.inflight and g < 200:
+                    sc.deliver(0, keep=dup and g % 2 == 0)
+                    g += 1
+                evaluate_simple(sc, {t1: 'WO' if j is None else 'WF', t2: 'WO', t3: 'WO'})
+                img = bytearray(base)
+                if j is None:
+                    img[a:a + n] = d1
+                else:
+                    img[a:a + 25 * j] = d1[:25 * j]
+                img[a + 60:a + 90] = d2
+                img[a + 100:a + 103] = d3
+                if bytes(dev.mems[2].data) != bytes(img):
+                    sc.fail('write-exact', 'device memory differs from the writes performed in order', len=n, error_at_chunk=j)
+                ctx.count('search:systematic')
+                if sc.bad:
+                    return True
+    for n in READ_LENS[:9]:
+        chunks = max(1, -(-n // 20))
+        for j in list(range(chunks)) + [None]:
+            for drop in [None] + list(range(chunks + 1)):
+                sc = Scenario(ctx, rng, {'kind': 'read', 'len': n, 'error_at_chunk': j, 'drop_after': drop})
+                h, dev = sc.h, sc.h.dev
+                a = 5
+                if j is not None:
+                    dev.force_status(4, 1, bytes([1]) + struct.pack('<I', a + 20 * j), 7, times=1)
+                t1 = sc.read(1, a, n)
+                g = 0
+                while h.inflight and g < 100:
+                    if drop is not None and g == drop:
+                        break
+                    sc.deliver(0, keep=False)
+                    g += 1
+                dropped = drop is not None and t1 not in sc.notes
+                if dropped or (drop is not None and g == drop and h.inflight):
+                    sc.disc()
+                want = 'RF' if (j is not None and (drop is None or drop > j)) or (t1 in sc.notes and sc.notes[t1][0][:2] == 'RF') else None
+                evaluate_simple(sc, {t1: want} if want else {})
+                ns = sc.notes.get(t1, [])
+                if ns and ns[0].startswith('RO'):
+                    got = ns[0].split(':')[4]
+                    if (b'' if got == '-' else bytes.fromhex(got)) != bytes(dev.mems[1].data[a:a + n]):
+                        sc.fail('read-exact', 'read result differs from the device memory', len=n)
+                del dev.forced[:]
+                t2 = sc.read(1, a, n)
+                while h.inflight:
+                    sc.deliver(0, keep=False)
+                if [x[:2] for x in sc.notes.get(t2, [])] != ['RO']:
+                    sc.fail('next-request-served', 'a read issued after the history is not served', notes=sc.notes.get(t2))
+                ctx.count('search:systematic')
+                if sc.bad:
+                    return True
+    return False
+
+
 def search(ctx):
     rng = ctx.rng
     d9 = replay_d9(ctx)
     d17 = replay_d17(ctx)
     if d9 or d17:
         return        # the remaining scenarios presuppose a subsystem that does not wedge
-    n = 60 if ctx.tier == 'quick' else 600
+    if systematic_search(ctx):
+        return
+    n = 60 if ctx.tier == 'quick' else 4000
     for k in range(n):
         drop = None if rng.random() < 0.6 else rng.randrange(0, 25)
         desc = {'k': k, 'drop_at': drop}
@@ -809,3 +1186,14 @@ def search(ctx):
                           p_err=rng.choice([0, 0, 0.2]), drop_at=drop, desc=desc)
         if sc.bad:
             break
+    try:
+        full_stack_scenarios(ctx, rng, 6 if ctx.tier == 'quick' else 150)
+    except Exception as e:
+        ctx.note('full-stack scenarios not run: %s: %s' % (type(e).__name__, e))
+    # client-level observation (not a finding): see Props tester_zero_length_read_observation
+    t = RealTester(1)
+    t.line('tread 900 0 0 1'.split(' '))
+    r = t.line(['tpkt', '1', hexs(ack_bytes(1, 0, 0))])
+    if 'RO:900' in r and 'TU' not in r:
+        ctx.note('observation: MemoryTester.read_data(size=0): Memory completes the read (mem_read_cb fires) but the tester calls its '
+                 'own finished-callback inside the loop over the data bytes, i.e. never; later read_data calls are ignored')
